@@ -264,3 +264,38 @@ pub async fn release(world: &Arc<World>, held: Held) {
         None => world.ev("hang", json!({"c": c, "lib": true})),
     }
 }
+
+fn chars(s: &str) -> Vec<String> {
+    s.chars().map(|c| c.to_string()).collect()
+}
+
+/// Calls `TopicName::try_parse` / `SubscriptionName::try_parse`, the Display of the result and
+/// the parser again on that echo. A panic is recorded as `ok = "panic"`.
+pub fn parse_event(func: &str, input: &str) -> serde_json::Value {
+    let f = func.to_string();
+    let inp = input.to_string();
+    let result = std::panic::catch_unwind(move || {
+        let parse = |s: &str| -> Option<(String, String, String)> {
+            if f == "topic" {
+                TopicName::try_parse(s).map(|n| (n.verif_project_id().to_string(), n.topic_id().to_string(), n.to_string()))
+            } else {
+                SubscriptionName::try_parse(s).map(|n| (n.project_id().to_string(), n.subscription_id().to_string(), n.to_string()))
+            }
+        };
+        let first = parse(&inp);
+        let second = first.as_ref().and_then(|(_, _, echo)| parse(echo));
+        (first, second)
+    });
+    match result {
+        Err(_) => json!({"fn": func, "str": input, "input": chars(input), "ok": "panic"}),
+        Ok((first, second)) => {
+            let (p, i, e) = first.clone().unwrap_or_default();
+            let (p2, i2, _) = second.clone().unwrap_or_default();
+            json!({
+                "fn": func, "str": input, "input": chars(input), "ok": first.is_some(),
+                "project": chars(&p), "id": chars(&i), "echo": chars(&e),
+                "echo_ok": second.is_some(), "echo_project": chars(&p2), "echo_id": chars(&i2),
+            })
+        }
+    }
+}
